@@ -19,9 +19,9 @@ theorem libc_invariant (cfg : Cfg) (a : Arr) (op : Op) (m : Mem) (hinv : a.Inv) 
     (a.step cfg op m).2.2.libc = m.libc := (Arr.step_led cfg a op m hinv).1
 
 /-- nor does any history -/
-theorem history_libc_invariant (cfg : Cfg) (ops : List Op) (a : Arr) (m : Mem) (hinv : a.Inv) (hlive : 0 < m.live)
+theorem history_libc_invariant (cfg : Cfg) (ops : List Op) (a : Arr) (m : Mem) (hinv : a.Inv)
     (hsort : ∀ xs, (cfg.sortFn xs).length = xs.length) : (a.run cfg ops m).2.2.libc = m.libc :=
-  (Arr.run_led cfg ops a m hinv hlive hsort).1
+  (Arr.run_led cfg ops a m hinv hsort).1
 
 /-- constructor, destructor and the derived-array builders -/
 theorem lifecycle_libc_invariant (a : Arr) (cap b e : Nat) (grow : Nat → Nat) (exGe : Nat → Bool)
@@ -37,8 +37,8 @@ theorem iter_libc_invariant (a : Arr) (it : ArrIter) (c : Spec.Seq.Cursor) (op :
     (hs : Arr.Sim a it c) : (a.iterStep it op m).2.2.2.libc = m.libc := (Arr.iterStep_led a it op m hinv c hs).1
 
 theorem zip_add_libc_invariant (a1 a2 : Arr) (it : ArrIter) (x y : Nat) (m : Mem) (h1 : a1.Inv) (h2 : a2.Inv)
-    (hlive : 0 < m.live) : (Arr.zipAdd a1 a2 it x y m).2.2.2.2.libc = m.libc :=
-  (Arr.zipAdd_led a1 a2 it x y m h1 h2 hlive).1
+    : (Arr.zipAdd a1 a2 it x y m).2.2.2.2.libc = m.libc :=
+  (Arr.zipAdd_led a1 a2 it x y m h1 h2).1
 
 /-- **allocator independence, one call**: two ledgers with the same schedule of refusals give the same
 report and the same resulting state (and the same remaining schedule) -/
@@ -48,17 +48,17 @@ theorem allocator_independent (cfg : Cfg) (a : Arr) (op : Op) (m1 m2 : Mem) (hin
 
 /-- **allocator independence, histories** -/
 theorem history_allocator_independent (cfg : Cfg) (ops : List Op) (a : Arr) (m1 m2 : Mem) (hinv : a.Inv)
-    (hl1 : 0 < m1.live) (hl2 : 0 < m2.live) (hsort : ∀ xs, (cfg.sortFn xs).length = xs.length)
+    (hsort : ∀ xs, (cfg.sortFn xs).length = xs.length)
     (h : m1.sched = m2.sched) :
     (a.run cfg ops m1).1 = (a.run cfg ops m2).1 ∧ (a.run cfg ops m1).2.1 = (a.run cfg ops m2).2.1 :=
-  ⟨(Arr.run_indep cfg ops a m1 m2 hinv hl1 hl2 hsort h).1, (Arr.run_indep cfg ops a m1 m2 hinv hl1 hl2 hsort h).2.1⟩
+  ⟨(Arr.run_indep cfg ops a m1 m2 hinv hsort h).1, (Arr.run_indep cfg ops a m1 m2 hinv hsort h).2.1⟩
 
 /-- on an allocator that never refuses (`sched = []`: a big enough pool, or `malloc`) the reports are
 those of any other such allocator -/
 theorem runs_on_any_nonrefusing_allocator (cfg : Cfg) (ops : List Op) (a : Arr) (m1 m2 : Mem) (hinv : a.Inv)
-    (hl1 : 0 < m1.live) (hl2 : 0 < m2.live) (hsort : ∀ xs, (cfg.sortFn xs).length = xs.length)
+    (hsort : ∀ xs, (cfg.sortFn xs).length = xs.length)
     (h1 : m1.sched = []) (h2 : m2.sched = []) : (a.run cfg ops m1).1 = (a.run cfg ops m2).1 :=
-  (Arr.run_indep cfg ops a m1 m2 hinv hl1 hl2 hsort (by rw [h1, h2])).1
+  (Arr.run_indep cfg ops a m1 m2 hinv hsort (by rw [h1, h2])).1
 
 /-- constructor and builders: same object (or none) under the same schedule — derived arrays are
 allocated through the source's triple -/
